@@ -83,6 +83,32 @@ def ref_layout(item):
     return total, fields, problems
 
 
+SIGNED = {"i8", "i16", "i32", "i64", "i128", "isize"}
+
+
+def type_width_problems(item):
+    """Declarations the generator accepts but cannot honour (it hands a primitive field's own impl a sub-slice
+    of the *declared* width, and widens sub-byte fields without sign extension):
+    [(kind, field, detail)] with kind in {"narrow-int-field", "signed-subbyte-field"}."""
+    out = []
+    for f in item.get("fields", []):
+        fw = f["wire"]
+        if fw.get("skip"):
+            continue
+        t = PRIM_BITS.get(f["ty"])
+        if t is None or f["ty"] == "bool":
+            continue
+        n = fw["bits"] if "bits" in fw else (fw["bytes"] * 8 if "bytes" in fw else t)
+        if n == t:
+            continue
+        if n < 8 and t == 8:
+            if f["ty"] in SIGNED:
+                out.append(("signed-subbyte-field", f["name"], "%s in %d bits: the value is masked and widened without sign extension, negative values do not round trip" % (f["ty"], n)))
+            continue
+        out.append(("narrow-int-field", f["name"], "%s declared %d bits wide: the %d byte sub-slice handed to <%s>::pack_to_slice_unchecked / unpack_from_slice is shorter than the %d bytes that impl needs (pack panics, unpack always fails)" % (f["ty"], n, (n + 7) // 8, f["ty"], t // 8)))
+    return out
+
+
 # ----------------------------------------------------------------------------------------------
 # symbolic evaluation of MIR operands
 # ----------------------------------------------------------------------------------------------
